@@ -124,6 +124,14 @@ def run_kernel(k, tier="quick"):
     mult = 1 if tier == "quick" else 4
     rs = discharge_terms(items + covers + canary, k.z3_timeout * mult, k.cvc5_timeout * mult)
     nq = len(items)
+    # verdicts must not flip under load: every obligation that is still open is re-issued once with a 6x budget and little parallelism
+    retry = [i for i in range(nq) if rs[i]["verdict"] == "unknown"]
+    if retry:
+        rs2 = discharge_terms([items[i] for i in retry], k.z3_timeout * mult * 6, k.cvc5_timeout * mult * 3, procs=4)
+        for i, r2 in zip(retry, rs2):
+            r2["seconds"] = round(r2["seconds"] + rs[i]["seconds"], 3)
+            r2["retried"] = True
+            rs[i] = r2
     for r, ob in zip(rs[:nq], eng.obligations):
         r = dict(r)
         r["kind"] = ob.kind
